@@ -81,6 +81,7 @@ impl Engine for FileE2e {
         let stall_mode = if overflow { 2 } else { ch.weighted(&[5, 3, 2]) }; // 0 none, 1 short stalls, 2 one very long stall
         let fault_budget = if overflow { 0 } else { fault_budget };
         let reuse = ch.chance(1, 2);
+        let writer_kind = ch.weighted(&[5, 2, 2, 2, 2]);
         let max_size = *ch.pick(&[1usize << 30, 300, 120]);
         // (overflow mode: one big file, so retention never deletes what the oracle looks for)
         let max_size = if overflow { 1usize << 30 } else { max_size };
@@ -103,7 +104,7 @@ impl Engine for FileE2e {
         let sched = Sched::new(std::mem::replace(ch, Choices::from_record(&[])), ctx.want_trace, 200_000);
         let prev = simthread::enter(&sched);
         sched.log(format!(
-            "config: sets={} events={n_events} fault_budget={fault_budget} stall_mode={stall_mode} reuse={reuse} max_size={max_size} final_flush={final_flush}",
+            "config: sets={} events={n_events} fault_budget={fault_budget} stall_mode={stall_mode} reuse={reuse} max_size={max_size} final_flush={final_flush} writer_kind={writer_kind}",
             if two_sets { 2 } else { 1 }
         ));
 
@@ -167,7 +168,54 @@ impl Engine for FileE2e {
         let clock = SimClock(Arc::new(Mutex::new(Duration::from_secs(1_716_778_800))));
         let fs_a = mk_fs();
         let fs_b = mk_fs();
-        let set_a = emit_file::set("logs/a/app.log")
+        // writer variants: 0 default JSON writer; 1 custom, record not terminated (emit must append the separator);
+        // 2 custom, record already terminated (emit must not append another); 3 custom with a two-byte separator
+        let builder_a = match writer_kind {
+            1 => emit_file::set_with_writer(
+                "logs/a/app.log",
+                |buf, evt| {
+                    use emit::Props as _;
+                    let m = evt.props().get("marker").map(|v| v.to_string()).unwrap_or_default();
+                    buf.extend_from_slice(format!("marker={m}").as_bytes());
+                    Ok(())
+                },
+                b"\n",
+            ),
+            2 => emit_file::set_with_writer(
+                "logs/a/app.log",
+                |buf, evt| {
+                    use emit::Props as _;
+                    let m = evt.props().get("marker").map(|v| v.to_string()).unwrap_or_default();
+                    buf.extend_from_slice(format!("marker={m}\n").as_bytes());
+                    Ok(())
+                },
+                b"\n",
+            ),
+            3 => emit_file::set_with_writer(
+                "logs/a/app.log",
+                |buf, evt| {
+                    use emit::Props as _;
+                    let m = evt.props().get("marker").map(|v| v.to_string()).unwrap_or_default();
+                    buf.extend_from_slice(format!("marker={m}").as_bytes());
+                    Ok(())
+                },
+                b"\r\n",
+            ),
+            4 => emit_file::set_with_writer(
+                "logs/a/app.log",
+                |buf, evt| {
+                    use emit::Props as _;
+                    // ends with the LAST byte of the separator only: the full separator must still be appended
+                    let m = evt.props().get("marker").map(|v| v.to_string()).unwrap_or_default();
+                    buf.extend_from_slice(format!("marker={m}\n").as_bytes());
+                    Ok(())
+                },
+                b"\r\n",
+            ),
+            _ => emit_file::set("logs/a/app.log"),
+        };
+        let sep_a: &'static [u8] = if writer_kind == 3 || writer_kind == 4 { b"\r\n" } else { b"\n" };
+        let set_a = builder_a
             .reuse_files(reuse)
             .max_file_size_bytes(max_size)
             .roll_by_minute()
@@ -444,7 +492,40 @@ impl Engine for FileE2e {
                     }
                 }
             }
-            let _ = fs_a.read_dir_files(std::path::Path::new("logs/a"));
+            // separator logic on the emitting side: exactly one separator after every record
+            let faults_fired = out.probes.contains_key("fs_fault_injected") || budget.lock().unwrap().0 != fault_budget;
+            for (path, data, _, _) in fs_a.current_view() {
+                let mut rest: &[u8] = &data;
+                let mut records: Vec<&[u8]> = Vec::new();
+                while !rest.is_empty() {
+                    match rest.windows(sep_a.len()).position(|w| w == sep_a) {
+                        Some(p) => {
+                            records.push(&rest[..p]);
+                            rest = &rest[p + sep_a.len()..];
+                        }
+                        None => {
+                            records.push(rest);
+                            rest = &[];
+                            if !faults_fired {
+                                out.violate("C10", "record_not_terminated", format!("{path} does not end with the separator"));
+                            }
+                        }
+                    }
+                }
+                for r in records {
+                    let n = markers_in(r).len();
+                    if n > 1 {
+                        out.violate("C10", "mangled_record", format!("a record in {path} holds {n} events: {:?}", String::from_utf8_lossy(r)));
+                    }
+                    if n == 0 && !faults_fired {
+                        out.violate(
+                            "C10",
+                            "spurious_empty_record",
+                            format!("{path} holds a record without an event ({:?}) although no fault was injected: a separator was written twice", String::from_utf8_lossy(r)),
+                        );
+                    }
+                }
+            }
         }
         for (k, v) in probes {
             *out.probes.entry(k).or_insert(0) += v;
